@@ -269,7 +269,7 @@ theorem C04_checking_deadline (a0 : Agent) (h0 : Initial a0) (evs : List Ev) (no
 
 /-- events that never run the timer -/
 def noTimerEv : Ev → Bool
-  | .setRemoteCreds _ _ | .inboundData _ _ _ _ _ | .write _ _ _ | .writeToPair _ _ _ _ | .read | .renominate _ _ _ _ => true
+  | .setRemoteCreds _ _ | .inboundData _ _ _ _ _ | .write _ _ _ | .writeToPair _ _ _ _ | .read _ | .renominate _ _ _ _ => true
   | _ => false
 
 /-- between ticks the deadline bookkeeping is stable: events that do not run the timer change neither the state
@@ -283,7 +283,7 @@ theorem C04_timer_fields_stable (a : Agent) (e : Ev) (he : noTimerEv e = true) :
     | inboundData now la src len sl => exact step_inboundData_quiet a now la src len sl
     | write now len sl => exact write_quiet a now len sl
     | writeToPair now id len sl => exact writeToPair_quiet a now id len sl
-    | read => exact step_read_quiet a
+    | read cap => exact step_read_quiet a cap
     | renominate now la ri v => exact renominate_quiet a now la ri v
     | _ => cases he
   exact ⟨q.1.connState, q.1.cstart, q.1.lastSeen, q.1.frame.ctimeout, q.2⟩
